@@ -17,7 +17,8 @@ class NStream(object):
     """name; knobs() -> NKnobs (random streams) or enum(idx, nchunks) -> iterable of NDesc (enumerated streams);
     classes: how many of the five other hierarchical classes each case is also run on (rotating)"""
 
-    def __init__(self, name, knobs=None, enum=None, quick=(16, 60), thorough=(64, 400), others=5, tiers=('quick', 'thorough')):
+    def __init__(self, name, knobs=None, enum=None, quick=(16, 60), thorough=(64, 400), others=5, tiers=('quick', 'thorough'),
+                 enum_states=False, pool=None):
         self.name = name
         self.knobs = knobs
         self.enum = enum
@@ -25,6 +26,8 @@ class NStream(object):
         self.thorough = thorough
         self.others = others
         self.tiers = tiers
+        self.pool = list(pool) if pool else list(OTHER_CLASSES)   # the other classes a case is also run on
+        self.enum_states = enum_states   # realise the description with Enum states (one Enum class per sibling group)
 
 
 def fingerprint(d):
@@ -119,6 +122,64 @@ def live_oracle(d, run):
     return bad
 
 
+def _related(a, b):
+    n = min(len(a), len(b))
+    return a[:n] == b[:n]
+
+
+def ete_active_kinds(d, run):
+    """Sub-classification (harness side) of the monitor clause `entered-then-exited:source-active`: for every exit of a
+    state entered earlier in the same event by a transition whose source is active, not exited in this event and not a
+    repetition of the same transition (the monitor's class "source-active"):
+      kind   'cross-region'    the source is unrelated (ancestor order) to every source that executed earlier in the event
+             'related-sources' it is an ancestor / descendant of (or equal to) one of them
+      group  '@local' some state active when the event began declares the event in its own definition, else '@global'"""
+    src_of = {(tuple(scope), ev, i): tuple(scope + t['source']) for scope, ev, i, t in d.all_trans()}
+    local_events = {tuple(p): set(e for e, _ts in n['local']) for p, n in d.walk()}
+    live = set(expand(run.states_after[0]))
+    pre = set(live)
+    kinds = set()
+    ev_of = {}
+    entered, exited, refs, srcs, found = set(), set(), [], [], set()
+    cur = None
+    for g in ghost(d, run.items):
+        if g[0] == 'api':
+            ev_of[g[1]] = g[2]
+        elif g[0] == 'exec':
+            src = src_of.get(g[1])
+            if g[1] in refs:
+                cls = 4
+            elif src is None:
+                cls = 0
+            elif src not in live:
+                cls = 2
+            elif src in exited:
+                cls = 3
+            else:
+                cls = 1
+            cur = (cls, src is not None and any(_related(src, x) for x in srcs if x is not None))
+            refs.append(g[1])
+            srcs.append(src)
+        elif g[0] == 'exit':
+            if g[1] in entered and (cur is None or cur[0] in (0, 1)):
+                found.add('related-sources' if (cur and cur[1]) else 'cross-region')
+            live.discard(g[1])
+            exited.add(g[1])
+        elif g[0] == 'enter':
+            live.add(g[1])
+            entered.add(g[1])
+        elif g[0] == 'fin':
+            ev = ev_of.get(g[1])
+            group = '@local' if any(ev in local_events.get(p, ()) for p in pre) else '@global'
+            kinds |= set(k + group for k in found)
+            entered, exited, refs, srcs, found = set(), set(), [], [], set()
+            cur = None
+            pre = set(live)
+        elif g[0] == 'raised' and g[2] in (3, 4):
+            break
+    return sorted(kinds)
+
+
 def outline(d, run):
     """what the class differential compares: enter / exit / executes, outcomes, states after each call"""
     g = [x for x in ghost(d, run.items) if x[0] in ('enter', 'exit', 'exec', 'cand', 'ret', 'raised')]
@@ -140,10 +201,10 @@ def monitor_request(kind, d, run):
     return (kind, d.enc_cfg() + nested.enc_sval(run.states_after[0]) + common.enc_items(run.items))
 
 
-def judge_case(prop, stream_name, d, model_ans, runs, mon_answers):
+def judge_case(prop, stream_name, d, model_ans, runs, mon_answers, enum_states=False):
     """runs: {class name: (run, err)}; mon_answers: {class name: answer}"""
     out = []
-    case = {'stream': stream_name, 'desc': d.to_json(), 'classes': sorted(runs)}
+    case = {'stream': stream_name, 'desc': d.to_json(), 'classes': sorted(runs), 'enum': bool(enum_states)}
     hm, hm_err = runs['HierarchicalMachine']
     for cls, (r, err) in sorted(runs.items()):
         ccase = dict(case, cls=cls)
@@ -161,6 +222,12 @@ def judge_case(prop, stream_name, d, model_ans, runs, mon_answers):
             if not a.startswith('reject'):
                 raise common.MachineryError('monitor answered %r' % a[:200])
             for clause in a.split()[1:]:
+                if prop == 'C02' and clause == 'entered-then-exited:source-active':
+                    # the open finding is narrower than the monitor's class: classify further (harness side)
+                    for kind in ete_active_kinds(d, r) or ['unclassified']:
+                        out.append(Failure('monitor', clause + ':' + kind, ccase, {'class': cls, 'monitor': a},
+                                           signature='%s.%s:%s' % (prop, clause, kind)))
+                    continue
                 out.append(Failure('monitor', clause, ccase, {'class': cls, 'monitor': a},
                                    signature='%s.%s' % (prop, clause)))
         if prop == 'C02':
@@ -197,8 +264,9 @@ def judge_case(prop, stream_name, d, model_ans, runs, mon_answers):
     return out
 
 
-def run_batch(prop, stream, descs, offset, ex, only_classes=None):
+def run_batch(prop, stream, descs, offset, ex, only_classes=None, enum_states=None):
     streams, mon_kind = _REGISTRY[prop]
+    enum_states = stream.enum_states if enum_states is None else enum_states
     ans = common.batch_driver([('nested', d.enc_case()) for d in descs])
     all_runs = []
     reqs, where = [], []
@@ -207,14 +275,14 @@ def run_batch(prop, stream, descs, offset, ex, only_classes=None):
         if only_classes is not None:
             classes = list(only_classes)
         else:
-            k = stream.others
-            rot = (offset + i) % len(OTHER_CLASSES)
-            classes += [OTHER_CLASSES[(rot + j) % len(OTHER_CLASSES)] for j in range(k)]
+            k = min(stream.others, len(stream.pool))
+            rot = (offset + i) % len(stream.pool)
+            classes += [stream.pool[(rot + j) % len(stream.pool)] for j in range(k)]
         if 'HierarchicalMachine' not in classes:
             classes = ['HierarchicalMachine'] + classes
         runs = {}
         for cls in classes:
-            runs[cls] = nested.run_guarded(d, cls)
+            runs[cls] = nested.run_guarded(d, cls, enum=enum_states)
             r, err = runs[cls]
             if r is not None and not err:
                 reqs.append(monitor_request(mon_kind, d, r))
@@ -229,7 +297,7 @@ def run_batch(prop, stream, descs, offset, ex, only_classes=None):
         if a == 'oof':
             ex.oof += 1
         hm = runs['HierarchicalMachine'][0]
-        fs = judge_case(prop, stream.name, d, a, runs, mon)
+        fs = judge_case(prop, stream.name, d, a, runs, mon, enum_states)
         ex.failures += fs
         ex.traces_validated += len(mon)
         if hm is not None:
@@ -648,7 +716,7 @@ class NestedCheck(runner.Check):
         stream = self.stream(case['stream']) if case.get('stream') in _REGISTRY[self.prop][0] else self.streams[0]
         ex = Exploration()
         classes = [case['cls']] if case.get('cls') else case.get('classes')
-        run_batch(self.prop, stream, [d], 0, ex, only_classes=classes)
+        run_batch(self.prop, stream, [d], 0, ex, only_classes=classes, enum_states=bool(case.get('enum')))
         return ex.failures
 
     def fails_like(self, f):
@@ -659,7 +727,7 @@ class NestedCheck(runner.Check):
     def annotate(self, f):
         d = nested.NDesc.from_json(f.case['desc'])
         cls = f.case.get('cls') or 'HierarchicalMachine'
-        r, err = nested.run_guarded(d, cls)
+        r, err = nested.run_guarded(d, cls, enum=bool(f.case.get('enum')))
         f.details['shrunk_class'] = cls
         if r is not None:
             f.details['shrunk_states'] = r.states_after
@@ -696,7 +764,7 @@ class NestedCheck(runner.Check):
         for e, ts in d.events:
             for t in ts:
                 print('global e%d: %s -> %s' % (e, nested.pname(t['source']), t['dest'] and nested.pname(t['dest'])))
-        r, err = nested.run_guarded(d, cls)
+        r, err = nested.run_guarded(d, cls, enum=bool(case.get('enum')))
         if r is not None:
             print('states after each call:', r.states_after)
             for g in ghost(d, r.items):
